@@ -7,6 +7,10 @@ CHECKS={
  "C01":("exploration","exhaustive program enumeration vs independent reference interpreter","every program of the stated generator layers is run on the real pipeline and on a reference interpreter that shares no code with it; agreement of printed values and ending","bounds of the generator layers; adopted conventions of DESIGN.md Appendix C; the reference interpreter is the trusted oracle"),
  "C02":("exploration","exhaustive storage-history enumeration, differential between reclamation on/off (two configurations of the real code)","every history of wrapped storage operations up to the stated length is run with the frame arena on and off under both the poisoning and the shipped profile; raw output bytes must agree","Runtime::new(arena, None) is the reclamation-free reference the code documents; bound = history length and alphabet"),
  "C03":("exploration","exhaustive program enumeration, differential between plan on/off, plus executed-statement hook","every function-body x main-sequence combination of the analysis alphabet is run with and without the optimisation plan; executed statement ids are checked against unreachable warnings","bound = body/main lengths and alphabets; stack-overflow endings not compared"),
+ "C04":("exploration","exhaustive program enumeration (scope micro-language forests) vs independent reference resolver + interpreter","every forest of up to N items over declare/assign/read/placeholder, block, loop, function definitions and calls, with site-naming tags, compared with a reference that resolves names lexically","N items / nesting 3; bindings the documentation leaves open are not compared"),
+ "C05":("exploration","exhaustive mutation-history enumeration vs reference with value-semantics arrays","every sequence of wrapped array operations up to the stated length compared with a reference whose arrays are cloned at every read/store/pass/return","sequence length and alphabet; pop() of empty = null"),
+ "C09":("exploration","exhaustive enumeration: scope forests (accept iff reference finds no broken rule) + catalogue of single-rule injections x host contexts","accept/reject decided for every program of the scope micro-language and for every catalogue violation in every host context, with the rejecting category checked where the rule names one","only unambiguous documented rules are demanded; open combinations must only not crash"),
+ "C10":("exploration","exhaustive re-layout enumeration with deviation bounding (<=1 / <=2 deviating gaps, uniform layouts, full product for tiny programs, redundant parentheses)","every token-preserving re-layout within the deviation bound of every host program must have the same diagnostics, output and ending as the baseline layout","comments only between tokens; empty gaps only next to punctuation"),
  "C06":("exploration","exhaustive product enumeration position x runtime type x route","every dynamically typed position with every runtime type through every type-hiding route; accepted programs must end normally or with a runtime error","only programs the real front end accepts are judged; aborts attributed through worker isolation"),
  "C11":("model_checking","explicit-state BFS over operation sequences in lock-step with a shadow model (real arena executed on every transition)","all op sequences to the stated depth on real arenas, every transition calling the real allocator and checking the contract against a shadow that tracks live blocks and byte patterns","depth bound and op alphabet; legal API histories only"),
  "C12":("model_checking","explicit-state search of the full reachable state space of small real pools, lock-step with a shadow model","entire reachable state space of pools with 2-3 slots per active class, every transition on the real PoolSet; plus exhaustion/refill of every class of the real 16k-slot pool","<=2 live fallback buffers, 3 active classes; release with the allocated size"),
